@@ -138,7 +138,11 @@ class LPSpec(object):
             return self.evaluate_big(sc)
         ctx = oracles.LPContext(sc)
         xcheck = None
-        if xstats is not None and sc['backend'].get('policy') != 'real':
+        # (no cross-check under value noise: the bound the repository derives
+        # from a value like 1.0000001 sits exactly at CBC's feasibility
+        # tolerance, where an exact enumerator and CBC legitimately differ)
+        if xstats is not None and sc['backend'].get('policy') != 'real' \
+                and not sc['backend'].get('value_noise'):
             xcheck = {'rate': self.xrate.get(sc.get('tier', 'quick'), 0.04),
                       'rng': random.Random(sc['backend'].get('choice_seed',
                                                              0) ^ 0x5bd1e995),
